@@ -35,8 +35,16 @@ func TestVerif_C20_ControlledSolo(t *testing.T) {
 		if err := s.ag.start(s.peer.ufrag, s.peer.pwd); err != nil {
 			rt.Fatalf("harness: %v", err)
 		}
+		// one endpoint may be signalled late: a renomination from it first creates a peer-reflexive candidate,
+		// which the signalled candidate supersedes afterwards (pairs keep their identity, C06)
+		lateSignal := rapid.IntRange(0, 2).Draw(rt, "lateSignal") == 0
+		signalled := map[int]bool{}
 		for i := range eps {
+			if lateSignal && i == 1 {
+				continue
+			}
 			_ = s.ag.addRemoteSync(s.epCandidate(i, eps[i]))
+			signalled[i] = true
 		}
 		type pk struct{ l, e int }
 		key := func(l, e *simSock) pk { return pk{l.idx, e.idx} }
@@ -105,14 +113,32 @@ func TestVerif_C20_ControlledSolo(t *testing.T) {
 			}
 		}))
 		nOps := rapid.IntRange(1, 25).Draw(rt, "nOps")
+		wide := rapid.IntRange(0, 2).Draw(rt, "wideValues") == 0
+		if wide {
+			lbl["values-over-the-24-bit-range"] = true
+		}
 		for i := 0; i < nOps; i++ {
-			op := rapid.SampledFrom([]string{"nominate", "nominate", "nominate", "answer", "answer", "drop", "tick"}).Draw(rt, "op")
+			op := rapid.SampledFrom([]string{"nominate", "nominate", "nominate", "answer", "answer", "drop", "tick", "signal"}).Draw(rt, "op")
 			s.purgeNonRequests()
 			switch op {
+			case "signal":
+				if signalled[1] {
+					continue
+				}
+				_ = s.ag.addRemoteSync(s.epCandidate(1, eps[1]))
+				signalled[1] = true
+				arrivals = append(arrivals, "signal(ep1)")
+				if len(deferredP) > 0 {
+					lbl["prflx-superseded-with-deferred-nomination"] = true
+				}
 			case "nominate":
 				l := s.ag.socks[rapid.IntRange(0, 1).Draw(rt, "l")]
 				e := s.eps[rapid.IntRange(0, 1).Draw(rt, "e")]
 				v := uint32(rapid.IntRange(1, 8).Draw(rt, "value")) //nolint:gosec
+				if wide {
+					// the whole 24-bit value space, with values more than 2^23 apart
+					v = rapid.SampledFrom([]uint32{1, 2, 3, 5, 1<<23 - 1, 1 << 23, 1<<23 + 1, 0x900000, 0xF00000, 0xFFFFFE, 0xFFFFFF}).Draw(rt, "wideValue")
+				}
 				k := key(l, e)
 				isValid := valid[k] || lite
 				acc := vMax == nil || v > *vMax
@@ -181,7 +207,7 @@ func TestVerif_C20_ControlledSolo(t *testing.T) {
 			labels = append(labels, l)
 		}
 		desc := fmt.Sprintf("lite=%v renomEnabled=%v %s", lite, renomEnabled, strings.Join(arrivals, "; "))
-		nontrivial := lbl["nomination-before-pair-valid"] || lbl["stale-or-duplicate-nomination"]
+		nontrivial := lbl["nomination-before-pair-valid"] || lbl["stale-or-duplicate-nomination"] || lbl["prflx-superseded-with-deferred-nomination"]
 		st.Record(vfHashStr(desc), nontrivial && len(accepted) > 0, labels...)
 		if nontrivial && st.WantSample() {
 			st.Sample(func() string { return desc })
@@ -215,7 +241,8 @@ func TestVerif_C20_Duo(t *testing.T) {
 				c.Socks[side] = append(c.Socks[side], duoSockSpec{Kind: rapid.SampledFrom([]int{simKindHost, simKindSrflx, simKindRelayish}).Draw(rt, "kind")})
 			}
 		}
-		d, err := newDuoSim(c, nil)
+		stride := rapid.SampledFrom([]uint32{0, 0, 2}).Draw(rt, "wideValueGenerator")
+		d, err := newDuoSim(c, func(_ int, cfg *simAgentConfig) { cfg.nomStride = stride })
 		if err != nil {
 			rt.Fatalf("harness: %v", err)
 		}
